@@ -139,9 +139,18 @@ def generate(seed: int, tier: str) -> Dict[str, Any]:
         order = r.sample(words, 3)
         texts = [" ".join(order[1:]), " ".join(order), " ".join(r.sample(words, 3)), " ".join(r.sample(words, r.randint(1, 3)))]
         ops = [{"op": "turn", "agent": ag, "text": t, "turn_id": i, "now_ms": E.T0_MS + 1000 * i} for i, t in enumerate(texts)]
+    force_profile = None
+    if r.chance(0.06) and not any(o.get("op") == "restart" for o in ops):
+        # a turn-level cache whose entries outlive their turn (no invalidation on apply) with a SHORT time-to-live, under a wall
+        # clock that leaps: the keys carry the state version, which moves with every committed turn, so no entry is ever looked
+        # up again - how many of them are still around must not show in any record
+        raw.setdefault("t4", {}).update({"enabled": True, "cache_bust_mode": "none"})
+        raw["t4"]["cache"] = {"enabled": True, "max_entries": 512, "ttl_sec": r.choice([1, 5])}
+        raw.pop("scheduler", None)
+        force_profile = "jumpy"
     # every turn carries the logical clock (ctx.now / ctx.now_ms): the property is stated for a given logical clock;
     # without one the engine documents a fall-back to the wall clock, which is not a reproducibility defect.
-    return {"world": world, "cfg": raw, "ops": ops, "profile": r.choice(PROFILES), "clock_seed": int(r.u64() % (1 << 31)),
+    return {"world": world, "cfg": raw, "ops": ops, "profile": force_profile or r.choice(PROFILES), "clock_seed": int(r.u64() % (1 << 31)),
             "hashseed": r.choice(HASHSEEDS),
             "wall_offset_days": r.choice([0, 1, 400, -400, 20000])}
 
